@@ -372,6 +372,14 @@ theorem C20_section_extents :
     sectionsOf .get_heartbeat .tracker = 1 ∧ (Cls.tracker, Cls.channels) ∈ edges .get_heartbeat := by
   decide +kernel
 
+/-- generated-table obligation: `add_invoice`, `add_keysend` and `check_onchain_tx` read the clock INSIDE
+the node_state section in which they feed the velocity control, and pass that read to `insert` (a
+time read before the lock can be older than the window start left by an overlapping request: the
+subtraction in `VelocityControl::insert` then underflows — finding F25). -/
+theorem C20_velocity_time_under_lock :
+    velocityTime.length = 3 ∧ ∀ e ∈ velocityTime, e.2.1 = true ∧ e.2.2.1 = true ∧ e.2.2.2 = true := by
+  decide +kernel
+
 /-- non-vacuity: a commitment-update-like request (slot 0, then the node ledger 9, both held to the
 end) and a ledger-only request, strict two-phase, interleaved (thread 0 acquires slot 0 and updates it,
 thread 1 runs completely, thread 0 continues): the execution completes, thread 1 commits first, and
